@@ -185,14 +185,7 @@ func c37Run(rt tbx, rec *ev.Rec, p c37Pattern) {
 	}
 
 	// bfe's GracefulShutdownTimeout is configurable up to 300 s; the flood takes well under a second
-	var settings []uint32
-	switch p.Download {
-	case "big":
-		settings = []uint32{0x4, 1 << 30} // SETTINGS_INITIAL_WINDOW_SIZE
-	case "drip":
-		settings = []uint32{0x4, 1}
-	}
-	r, err := startRig(rigOpts{S2CCap: p.S2CCap, Graceful: 120 * time.Second, Settings: settings})
+	r, err := startRig(rigOpts{S2CCap: p.S2CCap, Graceful: 120 * time.Second})
 	if err != nil {
 		rt.Skipf("C37: %v", err)
 	}
@@ -253,9 +246,12 @@ func c37Run(rt tbx, rec *ev.Rec, p c37Pattern) {
 		id := nextID
 		nextID += 2
 		body := 2 << 20 // 128 frames of 16 KiB
+		// SETTINGS_INITIAL_WINDOW_SIZE for the download only (restored afterwards)
 		if p.Download == "big" {
+			r.cli.write(rawFrame(fSettings, 0, 0, settingsPayload(0x4, 1<<30)))
 			r.cli.write(rawFrame(fWindowUpdate, 0, 0, u32(1<<30-65535)))
 		} else {
+			r.cli.write(rawFrame(fSettings, 0, 0, settingsPayload(0x4, 1)))
 			body = 120
 		}
 		r.cli.write(headersFrames(id, hpackLiteral([][2]string{{":method", "GET"}, {":scheme", "https"}, {":path", "/download"}, {":authority", "h2b.test"}, {"x-sid", fmt.Sprint(id)}}), true, nil, -1, 0))
@@ -290,6 +286,7 @@ func c37Run(rt tbx, rec *ev.Rec, p c37Pattern) {
 				break
 			}
 		}
+		r.cli.write(rawFrame(fSettings, 0, 0, settingsPayload(0x4, 65535)))
 		if !expectAlive("download (" + p.Download + ")") {
 			return
 		}
